@@ -29,6 +29,7 @@ META = {
                     "helpers that may return an operand itself (closeLinearGap with zero gap, IKPath's last element) are only checked "
                     "for non-mutation, as the statement requires"],
 }
+REQUIRED_CLASSES = ["operand:data_with_exact_zeros"]
 REQUIRED_CLAUSES = ["no_mutation", "no_alias", "mutate_result", "fresh_defaults", "defaults_table", "ctor.arm", "ctor.sp", "mr.args"]
 
 
@@ -168,10 +169,15 @@ def run_shard(spec, ctx):
     def T():
         return tm(gen.taa(rng, 10.0, ["generic", "generic2", "1e-3", "pi-1e-3"]))
 
-    def S(cls=Screw):
+    def S(cls=Screw, sparse=False):
+        d = rng.normal(size=(6, 1)) * 5
+        if sparse:      # pure forces / pure moments / axis-aligned screws: exact zeros (of either sign) in the data vector
+            z = rng.random((6, 1)) < 0.5
+            z[int(rng.integers(6))] = True
+            d = np.where(z, np.where(rng.random((6, 1)) < 0.5, 0.0, -0.0), d)
         if cls is Screw:
-            return Screw(rng.normal(size=(6, 1)) * 5, T())
-        return Wrench(rng.normal(size=(6, 1)) * 5, T(), T())
+            return Screw(d, T())
+        return Wrench(d, T(), T())
 
     def apply(name, fn, operands, kind, desc):
         """kind: 'value' (operators/copies/accessors: no mutation + no alias + mutate result) or 'helper' (no mutation only)."""
@@ -226,14 +232,18 @@ def run_shard(spec, ctx):
             ("tm(nd4x4)", lambda y: tm(y), [M4]), ("tm(nd6)", lambda y: tm(y), [arr6]),
         ]:
             apply(name, fn, ops, "value", d)
-        for cls, cn in ((Screw, "Screw"), (Wrench, "Wrench")):
-            s1, s2 = S(cls), S(cls)
+        for cls, cn, sparse in ((Screw, "Screw", False), (Wrench, "Wrench", False), (Screw, "Screw", True), (Wrench, "Wrench", True)):
+            s1, s2 = S(cls, sparse), S(cls, sparse)
+            if sparse:
+                ctx.cls("operand:data_with_exact_zeros")
             for name, fn, ops in [
                 (cn + "+obj", lambda x, y: x + y, [s1, s2]), (cn + "-obj", lambda x, y: x - y, [s1, s2]), (cn + "+nd6", lambda x, y: x + y, [s1, arr6]),
                 (cn + "-nd6", lambda x, y: x - y, [s1, arr6]), ("nd6-" + cn, lambda x, y: y - x, [s1, arr6]), (cn + "+k", lambda x: x + k0, [s1]),
                 ("k+" + cn, lambda x: k0 + x, [s1]), ("sum([" + cn + "])", lambda x: sum([x]), [s1]), ("sum([" + cn + "," + cn + "])", lambda x, y: sum([x, y]), [s1, S(cls)]),
                 (cn + "-k", lambda x: x - k0, [s1]), ("k-" + cn, lambda x: k0 - x, [s1]), (cn + "*k", lambda x: x * k, [s1]), ("k*" + cn, lambda x: k * x, [s1]),
-                (cn + "/k", lambda x: x / k, [s1]), (cn + "//k", lambda x: x // k, [s1]), ("abs(" + cn + ")", lambda x: abs(x), [s1]),
+                (cn + "/k", lambda x: x / k, [s1]), (cn + "//k", lambda x: x // k, [s1]), ("k/" + cn, lambda x: k / x, [s1]), ("k//" + cn, lambda x: k // x, [s1]),
+                ("nd6*" + cn, lambda x, y: y * x, [s1, arr6]), ("nd6/" + cn, lambda x, y: y / x, [s1, arr6]), (cn + "*nd6", lambda x, y: x * y, [s1, arr6]), (cn + "/nd6", lambda x, y: x / y, [s1, arr6]),
+                ("-" + cn, lambda x: -x, [s1]), (cn + "==" + cn, lambda x, y: x == y, [s1, s2]), ("abs(" + cn + ")", lambda x: abs(x), [s1]),
                 (cn + ".copy", lambda x: x.copy(), [s1]), (cn + ".getData", lambda x: x.getData(), [s1]), (cn + ".flatten", lambda x: x.flatten(), [s1]),
                 (cn + ".reshape", lambda x: x.reshape((6,)), [s1]), (cn + ".cross", lambda x, y: x.cross(y), [s1, s2]), (cn + ".dot", lambda x, y: x.dot(y), [s1, s2]),
                 (cn + "*obj", lambda x, y: x * y, [s1, s2]), (cn + "@obj", lambda x, y: x @ y, [s1, s2]),
